@@ -60,6 +60,22 @@ def prange_rules(P, R):
                 continue
             i = loop.target.id
             local = _assigned_names(loop.body) | {i}
+            # indices owned by this iteration: the induction variable and inner loop variables whose range is a function of it (blocked loops)
+            owned = {i}
+            derived = {i}
+            grew = True
+            while grew:
+                grew = False
+                for s_ in loop.body:
+                    for n_ in ast.walk(s_):
+                        if isinstance(n_, ast.Assign) and isinstance(n_.targets[0], ast.Name) and n_.targets[0].id not in derived and (astq.names_in(n_.value) & derived) \
+                                and not any(isinstance(x, ast.Subscript) for x in ast.walk(n_.value)):
+                            derived.add(n_.targets[0].id)
+                            grew = True
+                        if isinstance(n_, ast.For) and isinstance(n_.target, ast.Name) and n_.target.id not in owned and isinstance(n_.iter, ast.Call) \
+                                and norm(n_.iter.func) == 'range' and len(n_.iter.args) >= 2 and (astq.names_in(n_.iter.args[0]) & derived) and (astq.names_in(n_.iter.args[1]) & derived):
+                            owned.add(n_.target.id)
+                            grew = True
             okall = True
             for s in loop.body:
                 for n in ast.walk(s):
@@ -71,7 +87,7 @@ def prange_rules(P, R):
                                     b = base_name(tt.value)
                                     if b in local and not (b in f.params):
                                         continue   # array created inside the iteration
-                                    ok = _index_is(i, tt.slice)
+                                    ok = any(_index_is(v_, tt.slice) for v_ in owned)
                                     okall &= ok
                                     R.check(ok, 'C18.a', f, n, f'prange body stores only to `{b}[{i}]`',
                                             f'prange body stores to `{norm(tt)}`, not indexed by the induction variable `{i}`: iterations race on shared array `{b}`')
@@ -116,7 +132,7 @@ def prange_rules(P, R):
                 for n in ast.walk(s):
                     if isinstance(n, ast.Subscript) and isinstance(n.ctx, ast.Load) and base_name(n.value) in written \
                             and base_name(n.value) not in (local - set(f.params)):
-                        ok = _index_is(i, n.slice)
+                        ok = any(_index_is(v_, n.slice) for v_ in owned)
                         okall &= ok
                         R.check(ok, 'C18.a', f, n, 'prange body reads only its own slot of the array it writes',
                                 f'prange body reads `{norm(n)}` of an array written by other iterations')
@@ -262,3 +278,36 @@ def run(P, R, tier):
             R._add('C18.c', (o.path, o.site.split('::')[-1]), None, o.status, 'write-target injectivity: ' + o.detail, construct=o.construct)
     R.floor('C18.c', 'write-target obligations of the packing tasks', k, 2)
     common.fresh_arguments(P, R, 'C18.d', floor=12)
+    # C18.e: objects shared between threads (arrays, indexes, frames) are not written by their query methods; only constructors and the
+    # enumerated lazily-built caches store attributes (the check-then-build race of those caches is NOT decided, see module docstring)
+    shared = []
+    for f in P.all_funcs():
+        if f.cls is not None and f.kind in ('method', 'property') and f.mod.name in ('spatialpandas.spatialindex.rtree', 'spatialpandas.geometry.base', 'spatialpandas.geometry.baselist',
+                                                                                      'spatialpandas.geometry.basefixed', 'spatialpandas.geoseries', 'spatialpandas.geodataframe', 'spatialpandas.dask') \
+                or (f.cls is not None and f.mod.name.startswith('spatialpandas.geometry.')):
+            shared.append(f)
+    common.who_mutates(P, R, 'C18.e', shared, note=' (objects are shared between threads: concurrent callers see each other\'s writes)')
+    # write-target identity inside the writer helpers: the path opened for writing is the helper's own path argument
+    F = P.func('spatialpandas.dask', 'DaskGeoDataFrame.pack_partitions_to_parquet')
+    nopen = 0
+    for g in F.nested.values():
+        for c in astq.own_calls(g):
+            if astq.fs_call(c) == 'open':
+                mode = astq.arg_of(c, pos=1, kw='mode')
+                m = astq.const_str(mode) if mode is not None else 'rb'
+                if m and ('w' in m or 'a' in m) and c.args and g.params:
+                    a0 = c.args[0]
+                    if isinstance(a0, ast.Name) and a0.id in g.params:
+                        nopen += 1
+                        R.ok('C18.c', g, c, f'{g.name} writes exactly the path it was given (the caller makes it unique per task)')
+                    elif isinstance(a0, ast.Name):
+                        g0, d0 = astq.unique_def(g, a0.id)
+                        if isinstance(d0, ast.AST) and (astq.names_in(d0) & set(g.params)):
+                            nopen += 1
+                            txt = norm(d0)
+                            lossy = 'dirname(' in txt or '.parent' in txt or 'rsplit(' in txt or 'split(' in txt
+                            consts = [x.value for x in ast.walk(d0) if isinstance(x, ast.Constant) and isinstance(x.value, str)]
+                            R.check(not lossy, 'C18.c', g, c, f'{g.name} writes a path that keeps the identity of its path argument',
+                                    f'{g.name} writes to `{txt}`: only the directory of its path argument is kept and the file name is the constant {consts}: concurrent tasks writing into '
+                                    f'the same directory share this file')
+    R.floor('C18.c', 'open-for-write sites of packing helpers with a path parameter', nopen, 2)
